@@ -9,6 +9,9 @@ REPO = os.environ.get("BBVERIF_REPO", "/repo")
 env = dict(os.environ)
 env.pop("BLACKBIRD_VERIF", None)
 env["PYTHONDONTWRITEBYTECODE"] = "1"
+# the interpreter has /repo installed in development mode: for any other tree
+# the package must come first on the path, or its tests would run against /repo
+env["PYTHONPATH"] = os.path.join(REPO, "blackbird_python")
 with tempfile.TemporaryDirectory() as d:
     xml = os.path.join(d, "r.xml")
     subprocess.run(
